@@ -101,8 +101,12 @@ class Pages(Files):
                     filepath, stat_result, if_none_match, if_modified_since
                 )(environ, start_response)
             if stat.S_ISDIR(stat_result.st_mode):
-                url = URL(environ=environ)
-                url = url.replace(scheme="", path=url.path + "/")
+                try:
+                    url = URL(environ=environ)
+                    url = url.replace(scheme="", path=url.path + "/")
+                except ValueError:
+                    # the Host header, path or query cannot be put into a URL
+                    raise HTTPException(400) from None
                 return RedirectResponse(url)(environ, start_response)
 
         if self.handle_404 is None:
